@@ -43,6 +43,8 @@ type LoopSpec struct {
 	Invariants []SpecExpr
 	Decreases  []SpecExpr
 	Unroll     int
+	Uses       []string // lemma instances at the loop header (after the invariant is assumed)
+	Unfolds    []string // unfoldings of recursive spec functions at the loop header
 }
 
 type Split struct {
@@ -58,6 +60,8 @@ type SpecParam struct {
 }
 
 type SpecFunc struct {
+	Recursive bool     // recursive definition: applications are opaque; `unfold` instantiates the equation
+	Measure   SpecExpr // recursive: non-negative measure that decreases at every recursive application
 	Opaque bool
 	Name   string
 	Params []SpecParam
@@ -107,6 +111,9 @@ type Contract struct {
 	Ghosts     []GhostVar
 	GhostUpd   []GhostUpdate
 	Uses       []string
+	Unfolds    []string // unfoldings of recursive spec functions over the entry state
+	Inducts    []string // lemma: instances of the lemma itself assumed under a smaller measure
+	Measure    *SpecExpr
 	Reveal     []string
 	Hide       []string // ground tables treated as uninterpreted in this unit (facts come from lemmas)
 	PropFor    map[string][]string // property -> clause labels: the unit serves that property with these clauses only
@@ -209,10 +216,14 @@ func (cs *ContractSet) parseFile(path string) {
 			cs.add(cur, loc)
 			continue
 		case "spec":
-			opaque := false
+			opaque, recursive := false, false
 			if strings.HasPrefix(rest, "opaque ") {
 				opaque = true
 				rest = strings.TrimSpace(rest[7:])
+			}
+			if strings.HasPrefix(rest, "recursive ") {
+				opaque, recursive = true, true
+				rest = strings.TrimSpace(rest[10:])
 			}
 			name, params, res, body, err := parseSig(rest)
 			if err != nil {
@@ -222,7 +233,20 @@ func (cs *ContractSet) parseFile(path string) {
 			if _, dup := cs.Specs[name]; dup {
 				cs.errf("%s: duplicate spec %s", loc, name)
 			}
-			cs.Specs[name] = &SpecFunc{Opaque: opaque, Name: name, Params: params, Result: res, Body: mk(body), Pkg: pkg}
+			sf := &SpecFunc{Opaque: opaque, Recursive: recursive, Name: name, Params: params, Pkg: pkg}
+			if recursive {
+				// `R measure <expr>` : result type followed by the termination measure
+				i := strings.Index(res, " measure ")
+				if i < 0 {
+					cs.errf("%s: recursive spec %s needs `measure <expr>` after its result type", loc, name)
+				} else {
+					sf.Measure = mk(strings.TrimSpace(res[i+9:]))
+					res = strings.TrimSpace(res[:i])
+				}
+			}
+			sf.Result = res
+			sf.Body = mk(body)
+			cs.Specs[name] = sf
 			continue
 		case "ground", "frozen":
 			for _, g := range strings.Fields(strings.ReplaceAll(rest, ",", " ")) {
@@ -353,7 +377,22 @@ func (cs *ContractSet) parseFile(path string) {
 		case "nosplit":
 			cur.NoSplit = true
 		case "use":
-			cur.Uses = append(cur.Uses, rest)
+			if ord != "" {
+				loop().Uses = append(loop().Uses, rest)
+			} else {
+				cur.Uses = append(cur.Uses, rest)
+			}
+		case "unfold":
+			if ord != "" {
+				loop().Unfolds = append(loop().Unfolds, rest)
+			} else {
+				cur.Unfolds = append(cur.Unfolds, rest)
+			}
+		case "induct":
+			cur.Inducts = append(cur.Inducts, rest)
+		case "measure":
+			m := mk(rest)
+			cur.Measure = &m
 		case "hide":
 			for _, r := range strings.Split(rest, ",") {
 				r = strings.TrimSpace(r)
@@ -414,9 +453,15 @@ func parseSig(s string) (name string, params []SpecParam, res string, body strin
 		}
 	}
 	rest := strings.TrimSpace(s[j+1:])
-	if eq := strings.Index(rest, "="); eq >= 0 {
+	eq := strings.Index(rest, " = ")
+	if eq < 0 && strings.HasPrefix(rest, "= ") {
+		eq = -1
+		rest = " " + rest
+		eq = 0
+	}
+	if eq >= 0 {
 		res = strings.TrimSpace(rest[:eq])
-		body = strings.TrimSpace(rest[eq+1:])
+		body = strings.TrimSpace(rest[eq+3:])
 	} else {
 		res = rest
 	}
